@@ -479,29 +479,29 @@ func (el *EventList) Verify(acc *Accumulator) error {
 	if count == 0 {
 		return nil
 	}
+	// The link to the accumulator depends on acc, and the parent hash of the first event comes
+	// from outside the list: both are checked on every call. Only the internal consistency of
+	// the chain is remembered in el.verified (lists read from their compressed wire form are
+	// consistent by construction, but neither linked to acc nor sure of their first parent hash).
+	if err = events[count-1].hashEquals(acc.EventHash); err != nil {
+		return errors.WrapPrefix(err, "update chain has wrong hash", 0)
+	}
+	// The parent of the first event is not part of this list, so its hash cannot be recomputed;
+	// but it must be a well-formed hash: the hashed bytes of an event are index || parent hash || e,
+	// which is unambiguous only if the parent hash has the length its algorithm prescribes.
+	if _, err = events[0].ParentHash.Algorithm(); err != nil {
+		return errors.WrapPrefix(err, "event chain element 0 has malformed parent hash", 0)
+	}
 	if el.verified {
 		if el.validationErr != nil {
 			return el.validationErr
 		}
 		return nil
 	}
-	if err = events[count-1].hashEquals(acc.EventHash); err != nil {
-		return errors.WrapPrefix(err, "update chain has wrong hash", 0)
-	}
 
 	// Verify the hashes of the chain, computing the product of all revoked attributes along the way
 	startIndex := events[0].Index
 	for i, event := range events {
-		if i == 0 {
-			// The parent of the first event is not part of this list, so its hash cannot be
-			// recomputed; but it must be a well-formed hash: the hashed bytes of an event are
-			// index || parent hash || e, which is unambiguous only if the parent hash has the
-			// length its algorithm prescribes.
-			if _, err = event.ParentHash.Algorithm(); err != nil {
-				el.validationErr = errors.WrapPrefix(err, "event chain element 0 has malformed parent hash", 0)
-				return el.validationErr
-			}
-		}
 		if i != 0 {
 			if err = events[i-1].hashEquals(event.ParentHash); err != nil {
 				el.validationErr = errors.WrapPrefix(
